@@ -179,4 +179,12 @@ def MTree.eval (c : Cfg) (h : ι → Nat → Nat) : MTree ι W → St W
   | .leaf ops => run c h ops
   | .node l r more => runFrom h (mergeCore (l.eval c h) (r.eval c h)) more
 
+/-- the same tree evaluated with the refusing `merge` of the code (`none` = some merge threw) -/
+def MTree.evalO (c : Cfg) (h : ι → Nat → Nat) : MTree ι W → Option (St W)
+  | .leaf ops => some (run c h ops)
+  | .node l r more =>
+    match l.evalO c h, r.evalO c h with
+    | some a, some b => (merge a b).map (fun m => runFrom h m more)
+    | _, _ => none
+
 end DS.CountMin
